@@ -19,26 +19,44 @@ structure Ext (st st' : St) : Prop where
   comps : ∀ x d, d ∈ (st.cellOf x).comps → d ∈ (st'.cellOf x).comps
   members : ∀ k, st'.members k = st.members k
   linked : ∀ k o, st.linked k o = true → st'.linked k o = true
+  mat : ∀ x, (st'.cellOf x).mat = (st.cellOf x).mat
+  univ : ∀ x, (st'.cellOf x).univ = (st.cellOf x).univ
+  cont : ∀ x, (st.cellOf x).contLinked = true → (st'.cellOf x).contLinked = true
+  /-- a surface that is new in a container whose collection is linked to the problem has been linked -/
+  newSurf : ∀ x s, s ∈ (st'.cellOf x).surfs →
+    s ∈ (st.cellOf x).surfs ∨ ((st.cellOf x).contLinked = true → st'.slink s = true)
 
 theorem Ext.refl (st : St) : Ext st st :=
-  ⟨fun _ => rfl, fun _ _ h => h, fun _ _ h => h, fun _ => rfl, fun _ _ h => h⟩
+  ⟨fun _ => rfl, fun _ _ h => h, fun _ _ h => h, fun _ => rfl, fun _ _ h => h, fun _ => rfl, fun _ => rfl,
+   fun _ h => h, fun _ _ h => Or.inl h⟩
 
 theorem Ext.trans {a b c : St} (h1 : Ext a b) (h2 : Ext b c) : Ext a c :=
   ⟨fun x => (h2.geom x).trans (h1.geom x),
    fun x s h => h2.surfs x s (h1.surfs x s h), fun x d h => h2.comps x d (h1.comps x d h),
-   fun k => (h2.members k).trans (h1.members k), fun k o h => h2.linked k o (h1.linked k o h)⟩
+   fun k => (h2.members k).trans (h1.members k), fun k o h => h2.linked k o (h1.linked k o h),
+   fun x => (h2.mat x).trans (h1.mat x), fun x => (h2.univ x).trans (h1.univ x),
+   fun x h => h2.cont x (h1.cont x h),
+   fun x s h => by
+     rcases h2.newSurf x s h with hb | hb
+     · rcases h1.newSurf x s hb with ha | ha
+       · exact Or.inl ha
+       · exact Or.inr (fun hc => h2.linked .surface s (ha hc))
+     · exact Or.inr (fun hc => hb (h1.cont x hc))⟩
 
 theorem updCell_ext (st : St) (c : ObjId) (f : CellSt → CellSt)
     (hg : (f (st.cellOf c)).geom = (st.cellOf c).geom)
-    (hs : ∀ s, s ∈ (st.cellOf c).surfs → s ∈ (f (st.cellOf c)).surfs)
+    (hs : (f (st.cellOf c)).surfs = (st.cellOf c).surfs)
     (hc : ∀ d, d ∈ (st.cellOf c).comps → d ∈ (f (st.cellOf c)).comps)
-    (hl : (st.cellOf c).link = true → (f (st.cellOf c)).link = true) : Ext st (st.updCell c f) := by
-  refine ⟨?_, ?_, ?_, ?_, ?_⟩
+    (hl : (st.cellOf c).link = true → (f (st.cellOf c)).link = true)
+    (hm : (f (st.cellOf c)).mat = (st.cellOf c).mat) (hu : (f (st.cellOf c)).univ = (st.cellOf c).univ)
+    (hcl : (st.cellOf c).contLinked = true → (f (st.cellOf c)).contLinked = true) :
+    Ext st (st.updCell c f) := by
+  refine ⟨?_, ?_, ?_, ?_, ?_, ?_, ?_, ?_, ?_⟩
   · intro x; simp only [updCell_cellOf]; split
     · subst_vars; exact hg
     · rfl
   · intro x t ht; simp only [updCell_cellOf]; split
-    · subst_vars; exact hs t ht
+    · subst_vars; rw [hs]; exact ht
     · exact ht
   · intro x t ht; simp only [updCell_cellOf]; split
     · subst_vars; exact hc t ht
@@ -51,33 +69,44 @@ theorem updCell_ext (st : St) (c : ObjId) (f : CellSt → CellSt)
       · subst_vars; exact hl h
       · exact h
     all_goals exact h
-
-theorem slink_ext (st : St) (s : ObjId) : Ext st { st with slink := upd st.slink s true } := by
-  refine ⟨fun _ => rfl, fun _ _ h => h, fun _ _ h => h, ?_, ?_⟩
-  · intro k; cases k <;> rfl
-  · intro k o h
-    cases k
+  · intro x; simp only [updCell_cellOf]; split
+    · subst_vars; exact hm
+    · rfl
+  · intro x; simp only [updCell_cellOf]; split
+    · subst_vars; exact hu
+    · rfl
+  · intro x h; simp only [updCell_cellOf]; split
+    · subst_vars; exact hcl h
     · exact h
-    · simp only [St.linked, upd] at h ⊢
-      split
-      · rfl
-      · exact h
-    all_goals exact h
+  · intro x t ht
+    simp only [updCell_cellOf] at ht
+    split at ht
+    · subst_vars; rw [hs] at ht; exact Or.inl ht
+    · exact Or.inl ht
 
 theorem linkCell_ext (st : St) (o : ObjId) : Ext st (st.linkCell o) := by
-  unfold St.linkCell
-  refine ⟨?_, ?_, ?_, ?_, ?_⟩
-  · intro x; simp only [updCell_cellOf]; split <;> (try subst_vars) <;> rfl
-  · intro x t ht; simp only [updCell_cellOf]; split <;> (try subst_vars) <;> exact ht
-  · intro x t ht; simp only [updCell_cellOf]; split <;> (try subst_vars) <;> exact ht
+  have hcell : ∀ x, ((st.linkCell o).cellOf x).geom = (st.cellOf x).geom ∧
+      ((st.linkCell o).cellOf x).surfs = (st.cellOf x).surfs ∧
+      ((st.linkCell o).cellOf x).comps = (st.cellOf x).comps ∧
+      ((st.linkCell o).cellOf x).mat = (st.cellOf x).mat ∧
+      ((st.linkCell o).cellOf x).univ = (st.cellOf x).univ ∧
+      ((st.cellOf x).contLinked = true → ((st.linkCell o).cellOf x).contLinked = true) ∧
+      ((st.cellOf x).link = true → ((st.linkCell o).cellOf x).link = true) := by
+    intro x
+    unfold St.linkCell
+    simp only [updCell_cellOf]
+    split
+    · subst_vars; exact ⟨rfl, rfl, rfl, rfl, rfl, fun _ => rfl, fun _ => rfl⟩
+    · exact ⟨rfl, rfl, rfl, rfl, rfl, fun h => h, fun h => h⟩
+  refine ⟨fun x => (hcell x).1, fun x t ht => by rw [(hcell x).2.1]; exact ht,
+    fun x t ht => by rw [(hcell x).2.2.1]; exact ht, ?_, ?_, fun x => (hcell x).2.2.2.1,
+    fun x => (hcell x).2.2.2.2.1, fun x => (hcell x).2.2.2.2.2.1,
+    fun x t ht => Or.inl (by rw [(hcell x).2.1] at ht; exact ht)⟩
   · intro k; cases k <;> rfl
   · intro k x h
     cases k
-    · simp only [St.linked, updCell_cellOf] at h ⊢
-      split
-      · rfl
-      · exact h
-    all_goals (simp only [St.linked] at h ⊢; first | exact h | (split <;> first | rfl | exact h))
+    · exact (hcell x).2.2.2.2.2.2 h
+    all_goals (unfold St.linkCell; simp only [St.linked] at h ⊢; first | exact h | (split <;> first | rfl | exact h))
 
 theorem cellSurfAppend_spec (st : St) (c s : ObjId) :
     Ext st (cellSurfAppend st c s).1 ∧
@@ -86,11 +115,37 @@ theorem cellSurfAppend_spec (st : St) (c s : ObjId) :
   simp only
   split
   · exact ⟨Ext.refl st, fun h => by cases h⟩
-  · have e1 : Ext st (st.updCell c (fun cs => { cs with surfs := cs.surfs ++ [s] })) :=
-      updCell_ext st c _ rfl (fun t ht => by simp [ht]) (fun _ h => h) (fun h => h)
-    split
-    · exact ⟨e1.trans (slink_ext _ s), fun _ => by simp⟩
-    · exact ⟨e1, fun _ => by simp⟩
+  · refine ⟨⟨?_, ?_, ?_, ?_, ?_, ?_, ?_, ?_, ?_⟩, fun _ => by simp⟩
+    · intro x; simp only [updCell_cellOf]; split <;> (try subst_vars) <;> rfl
+    · intro x t ht; simp only [updCell_cellOf]; split
+      · subst_vars; simp [ht]
+      · exact ht
+    · intro x t ht; simp only [updCell_cellOf]; split <;> (try subst_vars) <;> exact ht
+    · intro k; cases k <;> rfl
+    · intro k o h
+      cases k
+      · simp only [St.linked, updCell_cellOf] at h ⊢
+        split <;> (try subst_vars) <;> exact h
+      · simp only [St.linked] at h ⊢
+        split
+        · simp only [upd]; split
+          · rfl
+          · exact h
+        · exact h
+      all_goals exact h
+    · intro x; simp only [updCell_cellOf]; split <;> (try subst_vars) <;> rfl
+    · intro x; simp only [updCell_cellOf]; split <;> (try subst_vars) <;> rfl
+    · intro x h; simp only [updCell_cellOf]; split <;> (try subst_vars) <;> exact h
+    · intro x t ht
+      simp only [updCell_cellOf] at ht
+      split at ht
+      · subst_vars
+        simp only [List.mem_append, List.mem_singleton] at ht
+        rcases ht with ht | rfl
+        · exact Or.inl ht
+        · refine Or.inr (fun hc => ?_)
+          simp [hc, upd]
+      · exact Or.inl ht
 
 theorem cellCompAppend_spec (st : St) (c d : ObjId) :
     Ext st (cellCompAppend st c d).1 ∧
@@ -100,7 +155,7 @@ theorem cellCompAppend_spec (st : St) (c d : ObjId) :
   split
   · exact ⟨Ext.refl st, fun h => by cases h⟩
   · have e1 : Ext st (st.updCell c (fun cs => { cs with comps := cs.comps ++ [d] })) :=
-      updCell_ext st c _ rfl (fun _ h => h) (fun t ht => by simp [ht]) (fun h => h)
+      updCell_ext st c _ rfl rfl (fun t ht => by simp [ht]) (fun h => h) rfl rfl (fun h => h)
     have hm : d ∈ ((st.updCell c (fun cs => { cs with comps := cs.comps ++ [d] })).cellOf c).comps := by simp
     split
     · have e2 := linkCell_ext (st.updCell c (fun cs => { cs with comps := cs.comps ++ [d] })) d
@@ -521,5 +576,100 @@ theorem iop_linkExt (u : Bool) (other : HS) : ∀ (self : HS) (st : St),
         cases e1 with
         | some err => exact ih
         | none => exact ih.trans (iopTail_linkExt u0 l p other st1 r1 (retOr r1 ret))
+
+/-! ### what the geometry helpers guarantee about the things a cell points at -/
+
+/-- members untouched, links only set, material / universe of every cell untouched, linked containers stay
+    linked, and a surface that is new in a linked container has been linked -/
+structure PExt (st st' : St) : Prop where
+  members : ∀ k, st'.members k = st.members k
+  linked : ∀ k o, st.linked k o = true → st'.linked k o = true
+  mat : ∀ x, (st'.cellOf x).mat = (st.cellOf x).mat
+  univ : ∀ x, (st'.cellOf x).univ = (st.cellOf x).univ
+  cont : ∀ x, (st.cellOf x).contLinked = true → (st'.cellOf x).contLinked = true
+  newSurf : ∀ x s, s ∈ (st'.cellOf x).surfs →
+    s ∈ (st.cellOf x).surfs ∨ ((st.cellOf x).contLinked = true → st'.slink s = true)
+
+theorem PExt.refl (st : St) : PExt st st :=
+  ⟨fun _ => rfl, fun _ _ h => h, fun _ => rfl, fun _ => rfl, fun _ h => h, fun _ _ h => Or.inl h⟩
+
+theorem PExt.trans {a b c : St} (h1 : PExt a b) (h2 : PExt b c) : PExt a c :=
+  ⟨fun k => (h2.members k).trans (h1.members k), fun k o h => h2.linked k o (h1.linked k o h),
+   fun x => (h2.mat x).trans (h1.mat x), fun x => (h2.univ x).trans (h1.univ x),
+   fun x h => h2.cont x (h1.cont x h),
+   fun x s h => by
+     rcases h2.newSurf x s h with hb | hb
+     · rcases h1.newSurf x s hb with ha | ha
+       · exact Or.inl ha
+       · exact Or.inr (fun hc => h2.linked .surface s (ha hc))
+     · exact Or.inr (fun hc => hb (h1.cont x hc))⟩
+
+theorem Ext.pExt {st st' : St} (e : Ext st st') : PExt st st' :=
+  ⟨e.members, e.linked, e.mat, e.univ, e.cont, e.newSurf⟩
+
+theorem PExt.toLink {st st' : St} (e : PExt st st') : LinkExt st st' := ⟨e.members, e.linked⟩
+
+/-- storing a geometry (`cell._geometry = g`) -/
+theorem pExt_updGeom (st : St) (c : ObjId) (g : Option HS) :
+    PExt st (st.updCell c (fun cs => { cs with geom := g })) := by
+  refine ⟨fun k => by cases k <;> rfl, ?_, ?_, ?_, ?_, ?_⟩
+  · intro k o h
+    cases k
+    · simp only [St.linked, updCell_cellOf] at h ⊢
+      split <;> (try subst_vars) <;> exact h
+    all_goals exact h
+  · intro x; simp only [updCell_cellOf]; split <;> (try subst_vars) <;> rfl
+  · intro x; simp only [updCell_cellOf]; split <;> (try subst_vars) <;> rfl
+  · intro x h; simp only [updCell_cellOf]; split <;> (try subst_vars) <;> exact h
+  · intro x t ht
+    simp only [updCell_cellOf] at ht
+    split at ht <;> (try subst_vars) <;> exact Or.inl ht
+
+theorem iopTail_pExt (u0 : Bool) (l : HS) (p : Option ObjId) (other : HS) (st1 : St) (r1 newRight : HS) :
+    PExt st1 (iopTail u0 l p other st1 r1 newRight).1.1 := by
+  unfold iopTail
+  cases p with
+  | none => simp only [linkChild]; exact PExt.refl st1
+  | some c =>
+    have hl := (linkChild_spec st1 c newRight).1
+    generalize linkChild st1 (some c) newRight = lres at hl ⊢
+    obtain ⟨⟨st2, e2⟩, r2⟩ := lres
+    cases e2 with
+    | some err => exact hl.pExt
+    | none => exact hl.pExt.trans (addChildren_spec st2 c other).1.pExt
+
+theorem iop_pExt (u : Bool) (other : HS) : ∀ (self : HS) (st : St),
+    PExt st (iop u st self other).1.1 := by
+  intro self
+  induction self with
+  | leaf ic d s p => intro st; simp only [iop]; exact PExt.refl st
+  | compl l p _ => intro st; simp only [iop]; exact PExt.refl st
+  | bin u0 l r p _ ihr =>
+    intro st
+    by_cases hu : (u0 != u) = true
+    · cases r <;> (simp only [iop, hu, if_true]; exact PExt.refl st)
+    · cases r with
+      | leaf ic d s q =>
+        simp only [iop, hu, if_false, Bool.false_eq_true]
+        cases p with
+        | none => simp only [linkChild]; exact PExt.refl st
+        | some c =>
+          have hl := (linkChild_spec st c (.bin u (.leaf ic d s q) other none)).1
+          generalize linkChild st (some c) (.bin u (.leaf ic d s q) other none) = lres at hl ⊢
+          obtain ⟨⟨st2, e2⟩, r2⟩ := lres
+          cases e2 <;> exact hl.pExt
+      | compl rl rq =>
+        simp only [iop, hu, if_false, Bool.false_eq_true]
+        exact iopTail_pExt u0 l p other st _ _
+      | bin ru rl rr rq =>
+        rw [iop]
+        case x_4 => intro _ _ _ _ h; cases h
+        simp only [hu, if_false, Bool.false_eq_true]
+        have ih := ihr st
+        generalize iop u st (.bin ru rl rr rq) other = res at ih ⊢
+        obtain ⟨⟨st1, e1⟩, r1, ret⟩ := res
+        cases e1 with
+        | some err => exact ih
+        | none => exact ih.trans (iopTail_pExt u0 l p other st1 r1 (retOr r1 ret))
 
 end MontePyVerif.Links
